@@ -332,6 +332,9 @@ def gen_call(rng, sig, exprs):
     args = ", ".join(pos + kws)
     how = ("no-arguments" if not args else "positional" if not kws else "keyword" if not pos else "mixed") + \
         ("+defaults-used" if k + len(kws) < n else "")
+    if args and rng.random() < 0.06:
+        # a blank between the name and the argument list: the compiler may refuse it, but must not accept it half-way
+        return f"{name} ({args})", how + "+blank-before-paren"
     return (name + (f"({args})" if args or rng.random() < 0.5 else "")), how
 
 
@@ -439,6 +442,12 @@ def run(tier: str, seed: int) -> int:
     for fam, ls, _cmp in P.call_matrix(rng, quick):
         if rng.random() < matrix_share:
             inputs.append(("call-shape-matrix", ls))
+    # @metadata values are text: whatever is written there, the compiled story stays plain (strict) JSON data
+    for _ in range(6 if quick else 40):
+        vals = [rng.choice(["Infinity", "-inf", "nan", "NaN", "1e999", "3", "2.50", "true", "null", "[1, 2]", "A: B", "\"q\"", "0x10", "1_000"])
+                for _ in range(rng.randint(1, 4))]
+        inputs.append(("metadata-values", ["@metadata"] + [f"  k{j}: {v}" for j, v in enumerate(vals)] +
+                       [":: Start", "Text", "+ [Go] -> Start"]))
     for _ in range(n_lines):
         inputs.append(("generated-lines", P.gen_story_lines(rng, blocks=True)))
     prof = G.Profile(faults=0.0)
